@@ -118,7 +118,6 @@ def run_property(prop, tier="quick", repo_root="/repo", seed=0, only=None, verbo
         else:
             all_obls += r.obligations
     # extra property-level checks (ground facts, scans) supplied by sidecar python modules
-    os.environ["VERIF_TIER_EFFECTIVE"] = tier
     extra = run_extra_checks(prop, repo, spec, gnums, repo_root)
 
     results = solve.discharge(all_obls, timeout_ms)
@@ -155,7 +154,7 @@ def run_property(prop, tier="quick", repo_root="/repo", seed=0, only=None, verbo
             vacuous.append(c.qual)
 
     names_now = set(norm(n) for n in by_name if by_name[n][0]["obligation"].kind not in ("canary", "known-region"))
-    not_generated = sorted(n for n in base_names if n not in names_now) if not only else []
+    not_generated = sorted(n for n in base_names if n not in names_now)
 
     # ---- violations
     violations = []
@@ -168,15 +167,9 @@ def run_property(prop, tier="quick", repo_root="/repo", seed=0, only=None, verbo
         ob = x["obligation"]
         model = x.get("model") or {}
         args = {k[4:]: v for k, v in model.items() if k.startswith("arg_")}
-        obs = {}
-        for k, (pth, sname, terms) in enumerate(ob.extra.get("observables", [])):
-            if ("obs!%d" % k) in model:
-                obs[pth] = dict(sort=sname.replace("=const", ""), value=model["obs!%d" % k])
-        from .values import ATOMS
-        atoms = {str(c): n for c, n in ATOMS.names.items()}
         replay = dict(
             property=prop, obligation=name, function=ob.func, kind=ob.kind, line=ob.line, path=ob.path, path_labels=ob.extra.get("labels"),
-            violated_clause=ob.extra.get("clause"), solver=x["solver"], solver_output="sat", model_args=args, pre_state=obs, atoms=atoms,
+            violated_clause=ob.extra.get("clause"), solver=x["solver"], solver_output="sat", model_args=args,
             model=model.get("__full__", "")[:6000], source_sha256=[r.info.get("sha256") for c, r in fun_results if r is not None and c.qual == ob.func],
         )
         native = run_replay(prop, replay, repo_root)
@@ -195,26 +188,6 @@ def run_property(prop, tier="quick", repo_root="/repo", seed=0, only=None, verbo
             violations.append("VIOLATION property=%s replay=%s no-failing-input-found" % (prop, rpath))
         else:
             undecided.append((name, xs))
-    # ---- bounded stand-in for what the prover left open (labelled bounded; never counted as proved)
-    bounded = []
-    und_funcs = set(x[1][0]["obligation"].func for x in undecided)
-    for c, r in fun_results:
-        if r is None or c.kind != "repo":
-            continue
-        if r.status == "ok" and c.qual not in und_funcs:
-            continue
-        sres = run_standin(c, r, repo, repo_root, seed, 400 if tier == "quick" else 4000)
-        bounded.append(dict(function=c.qual, reason=r.limit or "undecided obligations", evaluations=sres.get("evaluations"), accepted_by_requires=sres.get("accepted"),
-                            distinct=sres.get("distinct"), failures=len(sres.get("failures", [])), error=sres.get("error"),
-                            bound="random pre-states over the prover's observables (depth 3, lists <= 3), %d draws, seed %d" % (400 if tier == "quick" else 4000, seed)))
-        for k, f in enumerate(sres.get("failures", [])[:1]):
-            fname = re.sub(r"[^A-Za-z0-9_.@-]", "_", "%s_standin_%s" % (c.short, f.get("label") or f.get("kind")))[:150] + ".json"
-            rpath = os.path.join(VERIF, "replays", prop, fname)
-            json.dump(dict(property=prop, obligation="%s/bounded-standin:%s" % (c.short, f.get("label") or f.get("kind")), function=c.qual, kind="bounded-standin",
-                           failing_input=f, native=dict(confirmed=True, observed=f), note="found by run-time contract checking on the real function (bounded stand-in), the prover reported: %s" % (r.limit or "undecided")),
-                      open(rpath, "w"), indent=1, default=str)
-            violations.append("VIOLATION property=%s replay=%s" % (prop, rpath))
-    known_lines += extra.get("known_lines", [])
     for ev in extra["violations"]:
         fname = re.sub(r"[^A-Za-z0-9_.@-]", "_", ev["obligation"])[:150] + ".json"
         rpath = os.path.join(VERIF, "replays", prop, fname)
@@ -255,22 +228,13 @@ def run_property(prop, tier="quick", repo_root="/repo", seed=0, only=None, verbo
         vc_generation_s=round(gen_time, 2),
         obligation_instances=len(all_obls),
         ground_checks=extra["ground"],
-        bounded_standin=bounded,
         explanation="contract-based deductive verification: VCs generated from the current /repo AST by pyvc and discharged by SMT; level is 'proof' only when every generated obligation is discharged, no function is out of reach and no canary is vacuous",
     )
-    model_assumptions = ["abstract property read as a heap field: %s" % a for a in spec.abstract_props] + [
-        "A4 dispatch: receivers of static class %s are %s instances" % kv for kv in spec.dispatch.items()]
-    evidence = dict(property_id=prop, tier=tier, seed=seed, level=level, coverage=cov, assumptions=ASSUMPTIONS_COMMON + model_assumptions + extra["assumptions"], wall_s=round(wall, 2), violations=len(violations))
+    evidence = dict(property_id=prop, tier=tier, seed=seed, level=level, coverage=cov, assumptions=ASSUMPTIONS_COMMON + extra["assumptions"], wall_s=round(wall, 2), violations=len(violations))
     if write_evidence:
         os.makedirs(os.path.join(VERIF, "evidence"), exist_ok=True)
         json.dump(evidence, open(os.path.join(VERIF, "evidence", "%s.json" % prop), "w"), indent=1, default=str)
 
-    if os.environ.get("PYVC_RECORD_BASELINE") and not violations and not undecided and not out_of_reach:
-        # maintenance only (tools/mkbaseline.py): the obligations that are discharged on the unchanged tree
-        bpath = os.path.join(VERIF, "contracts", "BASELINE_OBLIGATIONS.json")
-        b = load_json(bpath, {})
-        b[prop] = sorted(set(norm(n) for n in discharged if by_name[n][0]["obligation"].kind in ("ensures", "frame", "raises", "loop-init", "loop-preserve", "loop-decreases", "call-pre", "safety")))
-        json.dump(b, open(bpath, "w"), indent=0, sort_keys=True)
     for l in sorted(set(known_lines)):
         print(l)
     print("%s: %d obligations, %d discharged, %d failed, %d undecided, %d functions (%d out of reach), %.1fs" % (prop, n_obl, n_dis, len(failed), len(undecided), len(functions), len(out_of_reach), wall))
@@ -304,66 +268,16 @@ def run_property(prop, tier="quick", repo_root="/repo", seed=0, only=None, verbo
     return 0
 
 
-def standin_spec(c, r, repo, seed, n):
-    """data for rt/standin.py: clause texts, observables, candidate atoms / numbers from the function and its contract"""
-    import ast as _ast
-    from .values import ATOMS
-
-    texts = []
-    atom_names = set()
-    nums = set()
-
-    def scan(node):
-        for x in _ast.walk(node):
-            if isinstance(x, _ast.Constant):
-                if isinstance(x.value, str):
-                    atom_names.add("str:" + x.value)
-                elif isinstance(x.value, (int, float)) and not isinstance(x.value, bool):
-                    nums.add(repr(x.value))
-            elif isinstance(x, _ast.Attribute) and isinstance(x.value, _ast.Name) and x.value.id in repo.classes and "Enum" in repo.classes[x.value.id].bases:
-                atom_names.add("%s.%s" % (x.value.id, x.attr))
-
-    try:
-        m, cls, node = repo.find(c.qual)
-        scan(node)
-    except Exception:
-        pass
-    scan(c.node)
-    pool = [ATOMS.code(n) for n in sorted(atom_names)] + [ATOMS.code("str:other")]
-    from fractions import Fraction as _F
-
-    return dict(
-        function=c.qual, requires=[_ast.unparse(n) for _, n in c.requires], ensures=[[l, _ast.unparse(n)] for l, n in c.ensures],
-        raises=[dict(exc=x["exc"], when=_ast.unparse(x["when"]) if x["when"] is not None else None, iff=x["iff"]) for x in c.raises],
-        observables=[[p, s] + ([str(t[0])] if s.endswith("=const") else []) for p, s, t in r.observables], atoms={str(k): v for k, v in ATOMS.names.items()}, atom_pool=pool,
-        num_pool=[str(_F(x)) for x in sorted(nums)][:40], n=n, seed=seed,
-    )
-
-
-def run_standin(c, r, repo, repo_root, seed, n):
-    if not r.observables:
-        return dict(evaluations=0, accepted=0, distinct=0, failures=[], error="no observables (the prover did not reach the function entry)")
-    spec = standin_spec(c, r, repo, seed, n)
-    try:
-        p = subprocess.run([VENV_PY, os.path.join(VERIF, "rt", "standin.py"), "--repo", repo_root], input=json.dumps(spec, default=str), capture_output=True, text=True, timeout=600)
-        last = [l for l in p.stdout.strip().splitlines() if l.startswith("{")]
-        if last:
-            return json.loads(last[-1])
-        return dict(evaluations=0, accepted=0, distinct=0, failures=[], error=p.stderr[-600:])
-    except Exception as e:
-        return dict(evaluations=0, accepted=0, distinct=0, failures=[], error=repr(e))
-
-
 def finding_matches(kmatch, replay):
     return True
 
 
 def run_extra_checks(prop, repo, spec, gnums, repo_root):
-    out = dict(obligations=0, discharged=0, violations=[], samples=[], assumptions=[], ground=[], known_lines=[])
+    out = dict(obligations=0, discharged=0, violations=[], samples=[], assumptions=[], ground=[])
     path = os.path.join(VERIF, "contracts", "extra_%s.py" % prop.lower())
     if not os.path.exists(path):
         return out
-    ns = {"__file__": path}
+    ns = {}
     exec(compile(open(path).read(), path, "exec"), ns)
     res = ns["run"](repo=repo, spec=spec, ground=gnums, repo_root=repo_root)
     for k in out:
@@ -395,16 +309,7 @@ def main(argv=None):
     ap.add_argument("--only", default=None)
     ap.add_argument("-v", action="store_true")
     ap.add_argument("--no-evidence", action="store_true")
-    ap.add_argument("--replay", default=None, help="re-run the native replay of a replay file written by an earlier run")
     a = ap.parse_args(argv)
-    if a.replay:
-        rec = json.load(open(a.replay))
-        res = run_replay(a.prop, rec, a.repo)
-        print(json.dumps(res, indent=1, default=str))
-        if res and res.get("confirmed"):
-            print("VIOLATION property=%s replay=%s" % (a.prop, a.replay))
-            sys.exit(1)
-        sys.exit(0)
     seed = int(os.environ.get("VERIF_SEED", "0"))
     try:
         rc = run_property(a.prop, a.tier, a.repo, seed, a.only, a.v, not a.no_evidence)
